@@ -538,6 +538,12 @@ def _discharged_locally(ctx: Any, f: FuncInfo, node: ast.AST, cont: ast.AST, key
                             return not arm
                         if oo is ast.Eq and kv >= 1:
                             return arm
+                        if oo is ast.NotEq and kv >= 1:
+                            return not arm  # `len(c) != 1` is false: exactly one element
+                        if oo is ast.Lt and kv <= 1:
+                            return not arm  # `len(c) < 1` is false: non-empty
+                        if oo is ast.LtE and kv <= 0:
+                            return not arm
             # current = c.get(k); current is not None
             for a_, b_ in ((l, r), (r, l)):
                 if isinstance(b_, ast.Constant) and b_.value is None and isinstance(a_, ast.Name):
